@@ -12,7 +12,21 @@ class Color(enum.Enum):
     G = "g"
 
 
+class Turn(enum.Enum):
+    # each member's value is the name of another member: the encoder writes the value, which must come back as this member
+    up = "down"
+    down = "left"
+    left = "up"
+
+
+class Level(enum.IntEnum):
+    low = 1
+    high = 2
+
+
 dyn.Color = Color
+dyn.Turn = Turn
+dyn.Level = Level
 dyn.uuid = uuid
 dyn.date, dyn.datetime, dyn.time, dyn.timedelta = date, datetime, time, timedelta
 
@@ -51,6 +65,8 @@ def gens(rng):
                                        microseconds=rng.choice([0, 0, 1, 500000, 999999])),
         "uuid.UUID": lambda: uuid.UUID(int=rng.getrandbits(128)),
         "Color": lambda: rng.choice(list(Color)),
+        "Turn": lambda: rng.choice(list(Turn)),
+        "Level": lambda: rng.choice(list(Level)),
     }
 
 
